@@ -129,12 +129,26 @@ NEEDS.update({
  "R7_C19_2":"infallible BoxedUint::random_mod with a single-limb modulus: different stream consumption than Uint::random_mod / try_random_mod from the second call or first rejection on",
  "R7_C19_3":"an RNG that yields two all-zero candidates in a row to NonZero::try_random",
 })
+NEEDS.update({
+ "R8_C08_1":"Clone::clone_from between two BoxedMontyForm values over different moduli of the same limb count (parameters left stale)",
+ "R8_C08_2":"width 1 only, a modulus above 2^63 and large operands (single-limb fast path of montgomery_reduction drops the 2^64 carry)",
+ "R8_C08_3":"conditional_assign / conditional_swap (not conditional_select) between MontyForm values over different moduli with a true choice",
+ "R8_C16_1":"a Uint appended to a bounded RlpStream list of two or more (counted twice through stream.append)",
+ "R8_C16_2":"BoxedUint::from_words fed by an iterator whose size_hint lower bound is inexact (from_fn, filter, map_while)",
+ "R8_C16_3":"a hex record containing one of the control characters 0x10..=0x19 (a digit with bit 5 flipped)",
+ "R8_C18_1":"RLP encoding of a value whose magnitude is exactly 55 octets (U448 and wider): long form b8 37 instead of the short form",
+ "R8_C18_2":"a fitting INTEGER followed inside the same SEQUENCE by enough further data (full-size pair, six integers in a row)",
+ "R8_C18_3":"an INTEGER carried as a [n] IMPLICIT context-specific field (Reader::context_specific(.., Implicit))",
+ "R8_C19_1":"ConstMontyForm::try_random for a compile-time modulus with 64 or more leading zero bits in a multi-limb type (two cooperating edits)",
+ "R8_C19_2":"Int::try_random_bits(_with_precision) at exactly bit_length == BITS (sign bit cleared)",
+ "R8_C19_3":"Uint::try_random_bits_with_precision with bit_length == 0 and bits_precision != BITS (precision error skipped)",
+})
 os.makedirs("/verif/seeded", exist_ok=True)
 rows=[]
 for name, needs in NEEDS.items():
     parts = name.split("_")
     prop, i = parts[-2], parts[-1]
-    src=f"/tmp/wt2_{prop}/seeded_out/{i}" if name.startswith("R2_") else (f"/tmp/wt3_{prop}/seeded_out/{i}" if name.startswith("R3_") else (f"/tmp/wt4_{prop}/seeded_out/{i}" if name.startswith("R4_") else (f"/tmp/wt5_{prop}/seeded_out/{i}" if name.startswith("R5_") else f"/tmp/wt6_{prop}/seeded_out/{i}" if name.startswith("R6_") else f"/tmp/wt7_{prop}/seeded_out/{i}" if name.startswith("R7_") else f"/tmp/wt_{prop}/seeded_out/{i}")))
+    src=f"/tmp/wt2_{prop}/seeded_out/{i}" if name.startswith("R2_") else (f"/tmp/wt3_{prop}/seeded_out/{i}" if name.startswith("R3_") else (f"/tmp/wt4_{prop}/seeded_out/{i}" if name.startswith("R4_") else (f"/tmp/wt5_{prop}/seeded_out/{i}" if name.startswith("R5_") else f"/tmp/wt6_{prop}/seeded_out/{i}" if name.startswith("R6_") else f"/tmp/wt7_{prop}/seeded_out/{i}" if name.startswith("R7_") else f"/tmp/wt8_{prop}/seeded_out/{i}" if name.startswith("R8_") else f"/tmp/wt_{prop}/seeded_out/{i}")))
     res_p=f"/tmp/seed_logs/{name}.json"
     if not (os.path.isdir(src) and os.path.exists(res_p)):
         if not os.path.exists(f"/verif/seeded/{name}/meta.json"): print("missing", name)
@@ -162,8 +176,8 @@ for name, needs in NEEDS.items():
       "caught_by":caught,
       "first_violations_reported":first,
     }
-    if name.startswith("R6_") or name.startswith("R7_"):
-        meta["written_by"]="independent sub-agent given the property text, a scratch worktree, and (rounds 6 and 7) a list of the kinds of change earlier rounds had already tried, so that it would look elsewhere; nothing from /verif"
+    if name[:3] in ("R6_","R7_","R8_"):
+        meta["written_by"]="independent sub-agent given the property text, a scratch worktree, and (rounds 6 to 8) a list of the kinds of change earlier rounds had already tried, so that it would look elsewhere; nothing from /verif"
         meta["confirmed_by_me"]["worktree"]=meta["confirmed_by_me"]["worktree"].replace("/tmp/wt_eval ","/tmp/wt_eval or /tmp/wt_eval2 ")
     old_p=os.path.join(dst,"meta.json")
     if os.path.exists(old_p):
